@@ -85,6 +85,15 @@ def effective_keys(sc, repo, rep=None):
             keys[k] = r
             if rep is not None:
                 rep.note('key %s is not in the frozen reference; judged against its README row %s' % (k, r))
+                # the README row of a NEW key is written by whoever adds the key; where the specification names the
+                # function, the key's name must go with the codes the specification gives that function
+                low = k.lower()
+                mine = [e for e in sc.get('spec_extra', []) if any(w in low for w in e['keywords'])]
+                at = [e for e in sc.get('spec_extra', []) if e['set1'] == r['set1'] or e['set2'] == r['set2']]
+                if mine and at and not any(e in mine for e in at):
+                    rep.finding('%s new-key %s has-the-codes-of %s' % (rep.prop, k, at[0]['label'].replace(' ', '')),
+                                'key %s is documented with Set 1 %s / Set 2 %s, which the scan code specification assigns to %s; %s is %s / %s' % (
+                                    k, r['set1'], r['set2'], at[0]['label'], mine[0]['label'], mine[0]['set1'], mine[0]['set2']))
     return keys
 
 
